@@ -611,7 +611,23 @@ def _hub_attr_expr(P, i, p):
   return x.real + x.conjugate()
 
 
+def _hub_multiarg(P, i, p):
+  # a hub handed to a several-arguments constructor / append() and used once
+  # more as it is
+  x = P.ls.thub(S(P, i[0]), 2)
+  if p["how"] == "first":
+    return P.ls.Stream(x, [0, 0, 0]) + x
+  if p["how"] == "last":
+    return P.ls.Stream([], x) + x
+  if p["how"] == "append":
+    return P.ls.Stream([]).append(x, [0, 0]) + x
+  return x + P.ls.Stream([], x, [0])
+
+
 stage("thub_expr")((_thub_expr, lambda i, p: M.m_each(i)))
+stage("hub_multiarg", params=lambda W: {"how": W.pick("how", [
+  "first", "last", "append", "rlast"])})(
+  (_hub_multiarg, lambda i, p: M.m_each(i)))
 stage("hub_attr_expr", params=lambda W: {"how": W.pick("how", ["attr", "call",
                                                                "both",
                                                                "hubcall"])})(
